@@ -658,6 +658,14 @@ class FactsProblem(Problem):
             lo = lin(f.iter.args[0]) if len(f.iter.args) == 2 else (None, 0)
             if v not in stored and not (names & stored) and lo is not None and not mentions(T(lo[0]), v):
                 out = (v, T(lo[0]), lo[1], {id(x) for b in f.body for x in ast.walk(b)})
+        elif node.kind == "for" and isinstance(f, ast.For) and isinstance(f.target, ast.Tuple) and len(f.target.elts) == 2 \
+                and isinstance(f.target.elts[0], ast.Name) and isinstance(f.iter, ast.Call) and isinstance(f.iter.func, ast.Name) \
+                and f.iter.func.id == "enumerate" and len(f.iter.args) == 1 and not f.iter.keywords:
+            # for i, x in enumerate(seq): i counts 0, 1, 2, ... as long as the body does not rebind it
+            v = f.target.elts[0].id
+            stored = {U(t) for b in f.body for x in ast.walk(b) for t in store_targets(x)}
+            if v not in stored:
+                out = (v, ZERO, 0, {id(x) for b in f.body for x in ast.walk(b)})
         cache[node.id] = out
         return out
 
@@ -704,11 +712,11 @@ class FactsProblem(Problem):
         if n.kind == "for":
             self.apply_calls(z, a.iter)
             if label == "iter":
-                if self._counted_for(n) is None:
-                    for t in store_targets(a):
-                        kp = kill_path_of_target(t)
-                        if kp:
-                            z.kill(kp)
+                cf_ = self._counted_for(n)
+                for t in store_targets(a):
+                    kp = kill_path_of_target(t)
+                    if kp and not (cf_ is not None and kp == cf_[0]):
+                        z.kill(kp)
                 self._range_facts(z, a)
             elif label == "done" and self._counted_for(n) is not None:
                 # the state tracks the value the variable would take in the *next* iteration; when the range is exhausted the
